@@ -2,6 +2,7 @@
 from __future__ import annotations
 
 import copy
+import json
 from typing import Any, Dict, List
 
 from ..sim.gen import profile
@@ -50,6 +51,11 @@ class C12Engine(SimEngine):
             # the program cancels the caller of a blocked flush(): whether a flush is blocked at that moment depends, by
             # documentation, on the faults (flush raises a failed task's exception at once instead of waiting): not comparable
             out["stats"]["twin_not_comparable_abandon"] = 1
+            return out
+        if "close:failed-pool-stays-locked" in res.labels and '"unlock"' in json.dumps(case):
+            # a gather_and_close() that raised a task's exception leaves the pool open (and locked); the fault-free twin closes it for
+            # good. A later unlock() therefore re-opens one and not the other - by documentation, not by leakage: not comparable
+            out["stats"]["twin_not_comparable_failed_close_then_unlock"] = 1
             return out
         if any(v for v in twin.violations):
             # the twin itself misbehaves: not a differential finding; its own oracles speak in their own checks
